@@ -662,7 +662,10 @@ def _sample_chains_worker(
             if isinstance(exception, AdaptationError):
                 iter_queue.put(None)
             else:
-                chain_outputs.append((chain_index, outputs))
+                # Also return state of (process local copy of) generator so that
+                # parent process can advance its generator for the chain to match
+                rng_state = chain_kwargs["rng"].bit_generator.state
+                chain_outputs.append((chain_index, outputs, rng_state))
             # If returned handled exception was a manual interrupt put exception
             # on iteration queue to communicate to parent process and break
             if isinstance(exception, KeyboardInterrupt):
@@ -704,6 +707,7 @@ def _sample_chains_parallel(
     """Sample multiple chains in parallel over multiple processes."""
     n_iters = [len(it) for it in chain_iterators]
     n_chain = len(chain_iterators)
+    per_chain_kwargs = list(per_chain_kwargs)
     with _ignore_sigint_manager() as manager, _pool_context_manager(n_process) as pool:
         results = None
         exception = None
@@ -794,7 +798,13 @@ def _sample_chains_parallel(
             indexed_chain_outputs = [r for res in results.get() for r in res]
             # Sort list by chain index (first element of tuple entries) and
             # then create new list with chain index removed
-            chain_outputs = [outp for i, outp in sorted(indexed_chain_outputs)]
+            indexed_chain_outputs.sort(key=lambda indexed_output: indexed_output[0])
+            chain_outputs = [outp for _, outp, _ in indexed_chain_outputs]
+            # Generators were advanced in copies in the worker processes therefore
+            # update states of parent process generators so that the random streams
+            # are continued rather than replayed in any subsequent sampling stage
+            for i, _, rng_state in indexed_chain_outputs:
+                per_chain_kwargs[i]["rng"].bit_generator.state = rng_state
         else:
             chain_outputs = []
     return (*_collate_chain_outputs(chain_outputs), exception)
